@@ -213,7 +213,7 @@ Example C03_json_roundtrip_nonvacuous :
                     end) [0; 1; -1; 255; -256; 2 ^ 53; 2 ^ 255; - 2 ^ 255; 2 ^ 256 - 1; 10 ^ 30] = true.
 Proof.
   cbv zeta. do 6 (split; [vm_compute; reflexivity|]).
-  split; [eexists; split; vm_compute; reflexivity|].
-  split; [eexists; split; vm_compute; reflexivity|].
+  split; [eexists; split; [vm_compute; reflexivity|vm_compute; reflexivity]|].
+  split; [eexists; split; [vm_compute; reflexivity|vm_compute; reflexivity]|].
   vm_compute. reflexivity.
 Qed.
